@@ -97,7 +97,9 @@ def gen_filter(tape, run, universe):
 def scenario(run, tape, clock, stores):
     mem = C.Store('memory', clock=clock)
     fil = C.Store('file', clock=clock)
-    prefix = tape.choice(['', '', 'a', 'ab', 'a/b'])
+    prefix = tape.choice(['', '', 'a', 'ab', 'a/b'] + C.S3_LAYOUT_PREFIXES)
+    if prefix in C.S3_LAYOUT_PREFIXES:
+        run.probe('s3_prefix_spelt_with_layout_words')
     s3 = C.Store('s3', key_prefix=prefix, clock=clock, page_size=tape.choice([1000, 1, 2]))
     stores.extend([mem, fil, s3])
     if prefix == '':
@@ -170,6 +172,28 @@ def scenario(run, tape, clock, stores):
     run.ev('history', cats, [V.srepr(m) for m in universe], prefix)
     nlook = 8 + tape.draw(30)
     for q in range(nlook):
+        if n and tape.draw(5) == 4:
+            # between two lookups a stored recording is annotated through ANOTHER cassette object over the same durable
+            # state (fetch, add metadata, save again under its id); the long-lived cassette objects used for the lookups
+            # must answer from what is stored now
+            i = tape.draw(n)
+            delta = dict((k, S.gen_json_value(tape)) for k in S.META_KEYS if tape.draw(3) == 2)
+            if tape.draw(3) == 2:
+                delta[INC] = bool(tape.draw(2))
+            if delta:
+                run.probe('annotated_through_another_cassette_object')
+                writers = {'memory': cass['memory'], 'file': fil.open(), 's3': s3.open()}
+                C.set_world(s3.world)
+                for name in ('memory', 'file', 's3'):
+                    r = writers[name].get_recording(ids[name][i])
+                    r.add_metadata(copy.deepcopy(delta))
+                    writers[name].save_recording(r)
+                md2 = dict(universe[i])
+                md2.update(delta)
+                universe[i] = md2
+                model.save(i, cats[i], md2, {})
+                run.say('annotate #%d with %s' % (i, V.short(delta, 150)))
+                run.ev('annotate', i, V.srepr(delta))
         cat = tape.choice(S.CATEGORIES)
         skip_lookup = tape.draw(4) == 3
         filt = gen_filter(tape, run, universe)
